@@ -41,6 +41,11 @@ func runC19(c *Ctx) {
 	ruleGuarded(c)
 	ruleAtomic(c, "ATOMIC", nil)
 	ruleLoopVar(c, "LOOPVAR")
+	// "results equal to some sequential order": a clock value read before the collector lock is taken can be older than a
+	// start time a concurrent scrape installs, which no sequential order produces
+	if m := findTT(c, "CLOCK"); m != nil {
+		ruleClock(c, m, "CLOCK")
+	}
 }
 
 type fieldClass struct {
